@@ -491,10 +491,16 @@ class VectorT {
         /// \name Non-Euclidean norm calculations
         //@{
 
-        /// compute L1 (Manhattan) norm
+        /// compute L1 (Manhattan) norm: the sum of the absolute values
         Scalar l1_norm() const {
-            return std::accumulate(
-                    values_.cbegin() + 1, values_.cend(), values_[0]);
+            return std::accumulate(values_.cbegin(), values_.cend(), Scalar(0),
+                    [](const Scalar &l, const Scalar &r) {
+                        if constexpr (std::is_unsigned<Scalar>::value) {
+                            return static_cast<Scalar>(l + r);
+                        } else {
+                            return static_cast<Scalar>(l + std::abs(r));
+                        }
+                    });
         }
 
         /// compute l8_norm
@@ -539,7 +545,8 @@ class VectorT {
 
         /// return arithmetic mean
         Scalar mean() const {
-            return l1_norm()/DIM;
+            return std::accumulate(
+                    values_.cbegin() + 1, values_.cend(), values_[0]) / DIM;
         }
 
         /// return absolute arithmetic mean
